@@ -113,7 +113,10 @@ def statements():
            "__asm__ goto (\"x\" : : : : l);", "asm (\"a\" \"b\");", "__asm__ (\"x\" : [o] \"=r\"(a) : [i] \"r\"(b));",
            "{ int x; int y = x; }", "{ struct S s; s.m = 1; }", "{ typedef int T; T x; }", "{ enum { A, B } e; }", "{ static int x; extern int y; register int z; auto int w; }",
            "{ _Static_assert(1, \"m\"); }", "{ int a[n]; }", "{ int (*fp)(void) = f; }", "{ x = sizeof(int); }", "{ __extension__ int x; }", "{ __label__ l; l: ; }",
-           "{ int x __attribute__((unused)); }", "{ int x __attribute__((cleanup(f))) = 1; }", "if (a) l: b;", "while (a) switch (b) { case 1: continue; }"]
+           "{ int x __attribute__((unused)); }", "{ int x __attribute__((cleanup(f))) = 1; }", "if (a) l: b;", "while (a) switch (b) { case 1: continue; }",
+           # a block-scope declaration that BEGINS with an alignment specifier / a GNU attribute (rejected until the parser was repaired)
+           "{ _Alignas(8) int z; }", "{ _Alignas(double) char buf[8]; z = 1; }", "for (_Alignas(8) int i = 0; i < 2; i++) ;", "{ __attribute__((unused)) int w; }",
+           "{ __attribute__((unused)) static int w = 1; }", "switch (a) { case 1: __attribute__((fallthrough)); case 2: ; }", "for (__attribute__((unused)) int i = 0; ; ) break;"]
     return out
 
 
